@@ -35,6 +35,13 @@ CLAIMED["C04"] = (
     "shape placed at the state (point-mass heading = atan2(vy,vx)).",
     "trajectories of <= 3 states; obstacle shapes given in the obstacle frame (centred); floats as reals; trig axiomatised; "
     "enclosure for uncertain states and scenario-level queries: see evidence clauses_outside_claim", "2/C04")
+CLAIMED["C08"] = (
+    "GoalRegion.is_reached / PlanningProblem.goal_reached run symbolically against an independently written specification "
+    "(time interval, position in rectangle / circle / polygon / shape group / lanelet polygons, angle interval modulo 2pi, "
+    "velocity interval, hypot/atan2 for point-mass states); all goal and state values are solver variables and z3 proves the "
+    "equivalence on every path, including int-valued states and intervals longer than pi.",
+    "1-2 goal states, trajectories of <= 3 states; polygons from a concrete family at a symbolic offset; floats as reals; "
+    "shapely replaced by shapely-lite; atan2 axiomatised", "2/C08")
 NOT_YET = {}
 
 props = [json.loads(l) for l in open(os.path.join(ROOT, "properties.jsonl"))]
